@@ -1,6 +1,17 @@
 /-
   Theorems about the model of /repo/internal/helpers/manager.go (VarmqVerif/Model/Manager.lean).
   Core tactics only.
+
+  Main results
+  * `rr_spec` (+ `rr_ok_offset`, `rr_ok_iff`, `rr_allEmpty_iff`, `rr_allEmpty_cursor`,
+    `rr_cursor_lt`, `rr_noItems_iff`): functional specification of `GetRoundRobinItem`; the index
+    expression `m.items[m.roundRobinIndex]` never panics from an in-range cursor and the cursor
+    stays in range.
+  * `maxLen_spec`, `minLen_spec` (+ the unconditional `maxLen_ok`, `maxLen_allEmpty_iff`).
+  * `total_eq_sum`.
+  * `rr_no_starvation`, `rr_equal_share` (`rr_equal_share_int`): fairness of round robin over
+    unbounded runs of the machine `step` (events `enq i`, `select`), via the cyclic distance
+    `dist n rr i` from the cursor.
 -/
 import VarmqVerif.Model.Manager
 
@@ -32,18 +43,25 @@ theorem dist_add {n rr k : Nat} (hr : rr < n) (hk : k < n) : dist n rr ((rr + k)
   rcases mod_cases (rr + k) n (by omega) with h | h <;>
   rcases mod_cases ((rr + k) % n + n - rr) n (by omega) with h' | h' <;> omega
 
+/-- Closed form of the cyclic distance without `%`: the number of steps from `rr` forward to `i`
+in the order `rr, rr+1, …, n-1, 0, …, rr-1`. -/
+theorem dist_eq {n rr i : Nat} (hr : rr < n) (hi : i < n) :
+    dist n rr i = if rr ≤ i then i - rr else i + n - rr := by
+  unfold dist
+  rcases mod_cases (i + n - rr) n (by omega) with h | h <;> split <;> omega
+
+theorem succ_mod {n q : Nat} (hq : q < n) : (q + 1) % n = if q + 1 = n then 0 else q + 1 := by
+  rcases mod_cases (q + 1) n (by omega) with h | h <;> split <;> omega
+
+/-- Distances seen from the cursor after item `q` has been served (`rr' = (q+1) % n`). -/
 theorem dist_after {n rr q t : Nat} (hr : rr < n) (hq : q < n) (ht : t < n) :
     dist n ((q + 1) % n) t =
       if dist n rr q < dist n rr t then dist n rr t - dist n rr q - 1
       else dist n rr t + n - dist n rr q - 1 := by
-  unfold dist
-  have hq1 := Nat.mod_lt (q+1) (by omega : 0 < n)
-  rcases mod_cases (q + 1) n (by omega) with h1 | h1 <;>
-  rcases mod_cases (t + n - (q + 1) % n) n (by omega) with h2 | h2 <;>
-  rcases mod_cases (q + n - rr) n (by omega) with h3 | h3 <;>
-  rcases mod_cases (t + n - rr) n (by omega) with h4 | h4 <;>
-  split <;> omega
-
+  have hq1 : (q + 1) % n < n := Nat.mod_lt _ (by omega)
+  rw [dist_eq hq1 ht, dist_eq hr hq, dist_eq hr ht, succ_mod hq]
+  by_cases h1 : q + 1 = n <;> by_cases h2 : rr ≤ q <;> by_cases h3 : rr ≤ t <;>
+    simp only [h1, h2, h3, if_true, if_false] <;> split <;> split <;> omega
 
 /-! ## GetRoundRobinItem -/
 
@@ -246,6 +264,20 @@ theorem rr_cursor_lt (lens : List Int) (rr : Nat) (hrr : rr < lens.length) :
   · rw [h2]; exact hrr
 
 
+-- Non-vacuity (GetRoundRobinItem), all by `decide`.
+-- rr_spec: cursor 2 of 4, items 0 and 2 empty: item 3 is served, cursor wraps to 0.
+example : roundRobin [0, 3, 0, 2] 2 = (.ok 3, 0) := by decide
+-- cursor 0: item 0 is empty and skipped, item 1 is served, cursor 2.
+example : roundRobin [0, 3, 0, 2] 0 = (.ok 1, 2) := by decide
+-- all empty (including a hypothetical negative length): error, cursor back at its start.
+example : roundRobin [0, -1, 0] 1 = (.error .allEmpty, 1) := by decide
+example : roundRobin [] 7 = (.error .noItems, 7) := by decide
+-- hypotheses of rr_spec hold non-trivially
+example : (2 : Nat) < [0, 3, 0, 2].length ∧ ∃ j, ∃ hj : j < [0, 3, 0, 2].length, (0 : Int) < [0, 3, 0, 2][j] :=
+  ⟨by decide, 1, by decide, by decide⟩
+-- out-of-range cursor (Go: index-out-of-range panic), totalised:
+example : roundRobin [1, 1] 2 = (.error .allEmpty, 2) := by decide
+
 /-! ## GetMaxLenItem -/
 
 
@@ -338,7 +370,7 @@ theorem maxLen_noItems_iff (lens : List Int) : maxLen lens = .error .noItems ↔
     split <;> simp
 
 /--
-**maxLen_spec.** `.ok i` → `lens[i]` is the maximum, `i` is the first index attaining it and
+**maxLen_ok** (part of `maxLen_spec`). `.ok i` → `lens[i]` is the maximum, `i` is the first index attaining it and
 `lens[i] ≠ 0` (hence `> 0` when all lengths are `≥ 0`, see `maxLen_ok_pos`).
 -/
 theorem maxLen_ok (lens : List Int) (i : Nat) (h : maxLen lens = .ok i) :
@@ -428,6 +460,34 @@ theorem maxLen_ok_iff_of_nonneg (lens : List Int) (hnn : ∀ l ∈ lens, 0 ≤ l
         omega
 
 
+/--
+**maxLen_spec** (bundle, for non-negative lengths, which is what `Len()` returns).
+`.ok i` → `lens[i]` is positive and maximal and `i` is the first index attaining the maximum;
+`ErrAllItemsEmpty` ↔ items are registered and all lengths are 0; `ErrNoItemsRegistered` ↔ no
+items; `.ok` ↔ some length is positive. (Without the non-negativity assumption see `maxLen_ok`,
+`maxLen_allEmpty_iff`: the Go test is `== 0`, so a negative maximum would be returned as `.ok`.)
+-/
+theorem maxLen_spec (lens : List Int) (hnn : ∀ l ∈ lens, 0 ≤ l) :
+    (∀ i, maxLen lens = .ok i → ∃ hi : i < lens.length, 0 < lens[i] ∧
+        (∀ j (hj : j < lens.length), lens[j] ≤ lens[i]) ∧ (∀ j (hj : j < i), lens[j] < lens[i])) ∧
+    (maxLen lens = .error .allEmpty ↔ lens ≠ [] ∧ ∀ j (hj : j < lens.length), lens[j] = 0) ∧
+    (maxLen lens = .error .noItems ↔ lens = []) ∧
+    ((∃ i, maxLen lens = .ok i) ↔ ∃ j, ∃ hj : j < lens.length, 0 < lens[j]) := by
+  refine ⟨?_, maxLen_allEmpty_iff_of_nonneg lens hnn, maxLen_noItems_iff lens,
+    maxLen_ok_iff_of_nonneg lens hnn⟩
+  intro i h
+  obtain ⟨hi, h1, h2, _⟩ := maxLen_ok lens i h
+  obtain ⟨_, hp⟩ := maxLen_ok_pos lens hnn i h
+  exact ⟨hi, hp, h1, h2⟩
+
+-- Non-vacuity (GetMaxLenItem).
+-- maxLen_spec: first maximal element; minLen_spec: first smallest positive element.
+example : maxLen [1, 3, 3, 2] = .ok 1 := by decide
+example : maxLen [0, 0] = .error .allEmpty := by decide
+example : maxLen [] = .error .noItems := by decide
+-- `== 0` rather than `<= 0`: a (hypothetical) negative maximum is returned as a valid item.
+example : maxLen [-1, -2] = .ok 0 := by decide
+
 /-! ## GetMinLenItem -/
 
 
@@ -499,7 +559,7 @@ theorem minLen_noItems_iff (lens : List Int) : minLen lens = .error .noItems ↔
     split <;> simp
 
 /--
-**minLen_spec.** `.ok i` → `lens[i] > 0`, it is the smallest positive length, and `i` is the first
+**minLen_ok** (part of `minLen_spec`). `.ok i` → `lens[i] > 0`, it is the smallest positive length, and `i` is the first
 index with that length.
 -/
 theorem minLen_ok (lens : List Int) (i : Nat) (h : minLen lens = .ok i) :
@@ -576,6 +636,26 @@ theorem minLen_ok_iff (lens : List Int) :
         have := ((minLen_allEmpty_iff lens).mp hm).2 j hj
         omega
 
+/--
+**minLen_spec** (bundle; no assumption on the lengths). `.ok i` → `lens[i]` is the smallest
+positive length and `i` the first index with that length; `ErrAllItemsEmpty` ↔ items are
+registered and no length is positive; `ErrNoItemsRegistered` ↔ no items; `.ok` ↔ some length is
+positive.
+-/
+theorem minLen_spec (lens : List Int) :
+    (∀ i, minLen lens = .ok i → ∃ hi : i < lens.length, 0 < lens[i] ∧
+        (∀ j (hj : j < lens.length), 0 < lens[j] → lens[i] ≤ lens[j]) ∧
+        (∀ j (hj : j < i), 0 < lens[j] → lens[i] < lens[j])) ∧
+    (minLen lens = .error .allEmpty ↔ lens ≠ [] ∧ ∀ j (hj : j < lens.length), lens[j] ≤ 0) ∧
+    (minLen lens = .error .noItems ↔ lens = []) ∧
+    ((∃ i, minLen lens = .ok i) ↔ ∃ j, ∃ hj : j < lens.length, 0 < lens[j]) :=
+  ⟨minLen_ok lens, minLen_allEmpty_iff lens, minLen_noItems_iff lens, minLen_ok_iff lens⟩
+
+-- Non-vacuity (GetMinLenItem): first smallest positive element.
+example : minLen [0, 3, 1, 1] = .ok 2 := by decide
+example : minLen [0, -4] = .error .allEmpty := by decide
+example : minLen [] = .error .noItems := by decide
+
 /-! ## Len / Register / Count -/
 
 theorem foldl_add_eq (lens : List Int) (a : Int) :
@@ -608,6 +688,8 @@ theorem register_getElem (lens : List Int) (l : Int) (j : Nat) (hj : j < lens.le
     (register lens l)[j]'(by simp [register]; omega) = lens[j] := by
   simp [register, hj]
 
+example : total [1, 2, 3] = 6 := by decide
+
 /-! ## queueManager.next -/
 
 theorem next_roundRobin (lens : List Int) (rr : Nat) :
@@ -635,6 +717,9 @@ theorem next_invalid (s : Nat) (hs : 2 < s) (lens : List Int) (rr : Nat) :
 
 
 
+example : next strategyMinLen [0, 3, 1] 2 = (.ok 2, 2) := by decide
+example : next 3 [0, 3, 1] 2 = (.error .invalidStrategy, 2) := by decide
+
 /-! ## Fairness of round robin (system-level) -/
 
 /-- Well-formed machine state: one counter per queue, at least one queue, cursor in range. -/
@@ -644,6 +729,15 @@ def St.WF (s : St) : Prop := s.served.length = s.lens.length ∧ s.rr < s.lens.l
 def NonemptyAtSelects (i : Nat) : St → List Ev → Prop
   | _, [] => True
   | s, e :: es => (e = .select → 0 < s.lenOf i) ∧ NonemptyAtSelects i (step s e) es
+
+instance (s : St) : Decidable s.WF := by unfold St.WF; infer_instance
+
+instance decNonemptyAtSelects (i : Nat) :
+    (s : St) → (evs : List Ev) → Decidable (NonemptyAtSelects i s evs)
+  | _, [] => isTrue trivial
+  | s, e :: es =>
+    have := decNonemptyAtSelects i (step s e) es
+    inferInstanceAs (Decidable ((e = .select → 0 < s.lenOf i) ∧ NonemptyAtSelects i (step s e) es))
 
 theorem dist_inj {n rr a b : Nat} (hr : rr < n) (ha : a < n) (hb : b < n)
     (h : dist n rr a = dist n rr b) : a = b := by
@@ -808,6 +902,25 @@ theorem rr_no_starvation (s : St) (hwf : s.WF) (i : Nat) (hi : i < s.lens.length
   exact rr_served_within_dist i evs s hwf hi hne (by omega)
 
 
+-- rr_no_starvation: 3 queues, cursor just past queue 0, three selects: queue 0 is served
+-- exactly at the third one.
+example :
+    let s : St := { lens := [1, 2, 1], rr := 1, served := [0, 0, 0] }
+    let evs : List Ev := [.select, .enq 2, .select, .select]
+    s.WF ∧ NonemptyAtSelects 0 s evs ∧ s.lens.length ≤ numSelects evs ∧
+      (run s evs).servedOf 0 = s.servedOf 0 + 1 := by decide
+-- the bound `n` is tight: after n - 1 selects queue 0 has not been served yet.
+example :
+    let s : St := { lens := [1, 2, 1], rr := 1, served := [0, 0, 0] }
+    let evs : List Ev := [.select, .enq 2, .select]
+    s.WF ∧ NonemptyAtSelects 0 s evs ∧ numSelects evs = s.lens.length - 1 ∧
+      (run s evs).servedOf 0 = s.servedOf 0 := by decide
+-- the hypothesis matters: a queue that is empty at the selects is (of course) not served.
+example :
+    let s : St := { lens := [0, 2, 1], rr := 1, served := [0, 0, 0] }
+    let evs : List Ev := [.select, .select, .select]
+    s.WF ∧ ¬ NonemptyAtSelects 0 s evs ∧ (run s evs).servedOf 0 = 0 := by decide
+
 /-- `NonemptyAtSelects` in prefix form: before every `select` of the sequence queue `i` is non-empty. -/
 theorem nonemptyAtSelects_iff (i : Nat) (evs : List Ev) : ∀ s : St,
     NonemptyAtSelects i s evs ↔
@@ -963,62 +1076,6 @@ theorem rr_equal_share_int (s : St) (hwf : s.WF) (i j : Nat) (hi : i < s.lens.le
   have := run_served_mono evs s j
   omega
 
-/-! ## Non-vacuity: concrete instances (all by `decide`) -/
-
-instance (s : St) : Decidable s.WF := by unfold St.WF; infer_instance
-
-instance decNonemptyAtSelects (i : Nat) :
-    (s : St) → (evs : List Ev) → Decidable (NonemptyAtSelects i s evs)
-  | _, [] => isTrue trivial
-  | s, e :: es =>
-    have := decNonemptyAtSelects i (step s e) es
-    inferInstanceAs (Decidable ((e = .select → 0 < s.lenOf i) ∧ NonemptyAtSelects i (step s e) es))
-
--- rr_spec: cursor 2 of 4, items 0 and 2 empty: item 3 is served, cursor wraps to 0.
-example : roundRobin [0, 3, 0, 2] 2 = (.ok 3, 0) := by decide
--- cursor 0: item 0 is empty and skipped, item 1 is served, cursor 2.
-example : roundRobin [0, 3, 0, 2] 0 = (.ok 1, 2) := by decide
--- all empty (including a hypothetical negative length): error, cursor back at its start.
-example : roundRobin [0, -1, 0] 1 = (.error .allEmpty, 1) := by decide
-example : roundRobin [] 7 = (.error .noItems, 7) := by decide
--- hypotheses of rr_spec hold non-trivially
-example : (2 : Nat) < [0, 3, 0, 2].length ∧ ∃ j, ∃ hj : j < [0, 3, 0, 2].length, (0 : Int) < [0, 3, 0, 2][j] :=
-  ⟨by decide, 1, by decide, by decide⟩
--- out-of-range cursor (Go: index-out-of-range panic), totalised:
-example : roundRobin [1, 1] 2 = (.error .allEmpty, 2) := by decide
-
--- maxLen_spec: first maximal element; minLen_spec: first smallest positive element.
-example : maxLen [1, 3, 3, 2] = .ok 1 := by decide
-example : maxLen [0, 0] = .error .allEmpty := by decide
-example : maxLen [] = .error .noItems := by decide
--- `== 0` rather than `<= 0`: a (hypothetical) negative maximum is returned as a valid item.
-example : maxLen [-1, -2] = .ok 0 := by decide
-example : minLen [0, 3, 1, 1] = .ok 2 := by decide
-example : minLen [0, -4] = .error .allEmpty := by decide
-example : minLen [] = .error .noItems := by decide
-example : total [1, 2, 3] = 6 := by decide
-example : next strategyMinLen [0, 3, 1] 2 = (.ok 2, 2) := by decide
-example : next 3 [0, 3, 1] 2 = (.error .invalidStrategy, 2) := by decide
-
--- rr_no_starvation: 3 queues, cursor just past queue 0, three selects: queue 0 is served
--- exactly at the third one.
-example :
-    let s : St := { lens := [1, 2, 1], rr := 1, served := [0, 0, 0] }
-    let evs : List Ev := [.select, .enq 2, .select, .select]
-    s.WF ∧ NonemptyAtSelects 0 s evs ∧ s.lens.length ≤ numSelects evs ∧
-      (run s evs).servedOf 0 = s.servedOf 0 + 1 := by decide
--- the bound `n` is tight: after n - 1 selects queue 0 has not been served yet.
-example :
-    let s : St := { lens := [1, 2, 1], rr := 1, served := [0, 0, 0] }
-    let evs : List Ev := [.select, .enq 2, .select]
-    s.WF ∧ NonemptyAtSelects 0 s evs ∧ numSelects evs = s.lens.length - 1 ∧
-      (run s evs).servedOf 0 = s.servedOf 0 := by decide
--- the hypothesis matters: a queue that is empty at the selects is (of course) not served.
-example :
-    let s : St := { lens := [0, 2, 1], rr := 1, served := [0, 0, 0] }
-    let evs : List Ev := [.select, .select, .select]
-    s.WF ∧ ¬ NonemptyAtSelects 0 s evs ∧ (run s evs).servedOf 0 = 0 := by decide
-
 -- rr_equal_share: queues 0 and 2 both non-empty at each of 4 selects, queue 1 joins late;
 -- the shares are 2 and 1: the difference 1 is reached.
 example :
@@ -1035,11 +1092,13 @@ example :
 #print axioms rr_allEmpty_cursor
 #print axioms rr_cursor_lt
 #print axioms rr_noItems_iff
+#print axioms maxLen_spec
 #print axioms maxLen_ok
 #print axioms maxLen_ok_pos
 #print axioms maxLen_allEmpty_iff
 #print axioms maxLen_allEmpty_iff_of_nonneg
 #print axioms maxLen_ok_iff_of_nonneg
+#print axioms minLen_spec
 #print axioms minLen_ok
 #print axioms minLen_allEmpty_iff
 #print axioms minLen_ok_iff
